@@ -1,6 +1,7 @@
 package main
 
 import (
+	"regexp/syntax"
 	"fmt"
 	"go/token"
 	"go/types"
@@ -196,6 +197,9 @@ func ruleC02(c *Ctx, r *Report) {
 						if !okRe {
 							bad = append(bad, "matched against a pattern that is not a package-level constant regexp at "+c.InstrPos(use))
 						}
+					case requiredLiteralPrefilter(x, ph.emailPat):
+						// `if strings.IndexByte(s, '@') < 0 { return false }`: a literal the pattern
+						// cannot match without - the verdict is the pattern's
 					default:
 						bad = append(bad, "passed to "+shortKey(k)+" at "+c.InstrPos(use))
 					}
@@ -477,6 +481,9 @@ func classifyTaintUse(c *Ctx, p *Prov, f *ssa.Function, i ssa.Instruction, op ss
 				if why, ok := nonSensitiveString(); ok {
 					return "pseudonymise(" + why + ")", ""
 				}
+				if why, ok := commandFieldNameValue(p, f, op, i.Block()); ok {
+					return "pseudonymise(" + why + ")", ""
+				}
 				gs := renameGuards(p, p.atomsAt(i.Block()))
 				if inh, all := p.fnGuards(f, 0); all {
 					gs = append(gs, inh...)
@@ -561,4 +568,170 @@ func onlyComparedWith(v ssa.Value, n int64) bool {
 		}
 	}
 	return true
+}
+
+// requiredLiteralPrefilter: call is strings.IndexByte / IndexRune / Index / Contains /
+// ContainsRune(value, <constant needle>), the needle occurs in every string the pattern matches
+// (a literal of every alternative at the top level of the parsed expression), and the only thing
+// the result does is send the "needle absent" case to `return false`.
+func requiredLiteralPrefilter(call *ssa.Call, pattern string) bool {
+	k := calleeKey(&call.Call)
+	if len(call.Call.Args) != 2 || pattern == "" {
+		return false
+	}
+	needle := ""
+	switch k {
+	case "strings.IndexByte", "strings.IndexRune", "strings.ContainsRune":
+		n, ok := constInt(call.Call.Args[1])
+		if !ok {
+			return false
+		}
+		needle = string(rune(n))
+	case "strings.Index", "strings.Contains":
+		sv, ok := constString(call.Call.Args[1])
+		if !ok || sv == "" {
+			return false
+		}
+		needle = sv
+	default:
+		return false
+	}
+	re, err := syntax.Parse(pattern, syntax.Perl)
+	if err != nil || !patternRequires(re.Simplify(), needle) {
+		return false
+	}
+	isBool := k == "strings.Contains" || k == "strings.ContainsRune"
+	returnsFalse := func(b *ssa.BasicBlock) bool {
+		if len(b.Instrs) == 0 {
+			return false
+		}
+		ret, ok := b.Instrs[len(b.Instrs)-1].(*ssa.Return)
+		if !ok || len(ret.Results) != 1 || len(b.Instrs) > 2 {
+			return false
+		}
+		v, isC := constBool(ret.Results[0])
+		return isC && !v
+	}
+	// absentOn: for a boolean value, which truth value means "needle absent"
+	var okUse func(v ssa.Value, absentWhen bool) bool
+	okUse = func(v ssa.Value, absentWhen bool) bool {
+		for _, use := range referrers(v) {
+			switch x := use.(type) {
+			case *ssa.DebugRef:
+			case *ssa.UnOp:
+				if x.Op != token.NOT || !okUse(x, !absentWhen) {
+					return false
+				}
+			case *ssa.If:
+				succ := x.Block().Succs[0]
+				if !absentWhen {
+					succ = x.Block().Succs[1]
+				}
+				if !returnsFalse(succ) {
+					return false
+				}
+			default:
+				return false
+			}
+		}
+		return true
+	}
+	if isBool {
+		return okUse(call, false)
+	}
+	for _, use := range referrers(call) {
+		if _, isDbg := use.(*ssa.DebugRef); isDbg {
+			continue
+		}
+		bo, ok := use.(*ssa.BinOp)
+		if !ok || bo.X != ssa.Value(call) {
+			return false
+		}
+		n, isC := constInt(bo.Y)
+		if !isC {
+			return false
+		}
+		switch {
+		case (bo.Op == token.LSS && n == 0) || (bo.Op == token.EQL && n == -1) || (bo.Op == token.LEQ && n == -1):
+			if !okUse(bo, true) {
+				return false
+			}
+		case (bo.Op == token.GEQ && n == 0) || (bo.Op == token.NEQ && n == -1) || (bo.Op == token.GTR && n == -1):
+			if !okUse(bo, false) {
+				return false
+			}
+		default:
+			return false
+		}
+	}
+	return true
+}
+
+// patternRequires: every match of re contains needle - decided on the top-level structure only:
+// a literal containing it in a concatenation, in every branch of an alternation, under a
+// capture, or under a repetition with a minimum of at least one.
+func patternRequires(re *syntax.Regexp, needle string) bool {
+	switch re.Op {
+	case syntax.OpLiteral:
+		if re.Flags&syntax.FoldCase != 0 {
+			return false
+		}
+		return strings.Contains(string(re.Rune), needle)
+	case syntax.OpConcat:
+		for _, sub := range re.Sub {
+			if patternRequires(sub, needle) {
+				return true
+			}
+		}
+		return false
+	case syntax.OpAlternate:
+		for _, sub := range re.Sub {
+			if !patternRequires(sub, needle) {
+				return false
+			}
+		}
+		return len(re.Sub) > 0
+	case syntax.OpCapture, syntax.OpPlus:
+		return patternRequires(re.Sub[0], needle)
+	case syntax.OpRepeat:
+		return re.Min >= 1 && patternRequires(re.Sub[0], needle)
+	}
+	return false
+}
+
+// commandFieldNameValues: members of a command document whose string VALUE is a field name, and
+// the verb the command must carry for that to be so (the grammar fixes it, like the FieldName
+// positions of the stage tables): distinct.key.
+var commandFieldNameValues = map[string]string{"key": "distinct"}
+
+// commandFieldNameValue: v is cmd[<k>] read in the command walker for a k of the table above, at
+// a block where cmd[<verb>] was found present.
+func commandFieldNameValue(p *Prov, f *ssa.Function, v ssa.Value, at *ssa.BasicBlock) (string, bool) {
+	cmdFn := p.cmdWalker()
+	if cmdFn == nil || f != cmdFn {
+		return "", false
+	}
+	rv, kv, ok := getKeyValueOf(peel(v))
+	if !ok || peel(rv) != ssa.Value(cmdFn.Params[0]) {
+		return "", false
+	}
+	k, isC := constString(kv)
+	verb, has := commandFieldNameValues[k]
+	if !isC || !has {
+		return "", false
+	}
+	for _, ft := range allFacts(at) {
+		ex, isEx := peel(ft.Cond).(*ssa.Extract)
+		if !isEx || ex.Index != 1 || !ft.Pol {
+			continue
+		}
+		gc, isCall := ex.Tuple.(*ssa.Call)
+		if !isCall || calleeKey(&gc.Call) != omMethod("Get") || peel(gc.Call.Args[0]) != ssa.Value(cmdFn.Params[0]) {
+			continue
+		}
+		if vk, isK := constString(gc.Call.Args[1]); isK && vk == verb {
+			return "the field named by " + verb + "." + k, true
+		}
+	}
+	return "", false
 }
